@@ -11,6 +11,7 @@ CONSTANTS
   RecheckUnderLock = TRUE
   GuardedConn = TRUE
   PerCycleWG = TRUE
+  SubscribeMayFail = TRUE
   Script <- TraceScript
 CONSTRAINT HighWater
 INVARIANTS NotAccepted MutualExclusion FifoPrefix AtMostOnce NoPanic NoLateStart
